@@ -1,13 +1,274 @@
 /-
-  C01 - preconditions gate every call.
-  Property theorems only; helper lemmas live in `Lemmas/`.
--/
-import IcontractModel.Lemmas.CheckerSync
-namespace Icontract
+  C01 - preconditions gate every call: the body runs iff the effective
+  precondition holds.  Property theorems only; helper lemmas live in `Lemmas/`.
 
-/-- One precondition of a sync callable passes exactly when it answers truthy. -/
-theorem C01_cond_passes_iff (o : Oracle) (kw : Kwargs) (c : Contract) :
-    (evalPreSync o kw c).out = .ok false ↔ condTruthy false o kw c = true :=
-  evalPreSync_false_iff o kw c
+  Quantifiers: every checker `ck` (any list of precondition groups of any
+  lengths, any snapshots and postconditions around them), every oracle `o`
+  (every truth assignment, every way user code may raise), every call.  Sync and
+  async wrappers are separate model definitions with separate theorems.
+-/
+import IcontractModel.Lemmas.Instances
+import IcontractModel.Chain
+namespace Icontract
+open Res
+
+/-- errors are created without failing (used only for "which error is raised") -/
+theorem createViolationError_errorOf (o : Oracle) (kw : Kwargs) (c : Contract) (err : Raised)
+    (h : errorOf o kw c = some err) : (createViolationError o c kw).out = .ok err := by
+  unfold errorOf at h
+  unfold createViolationError
+  split at h
+  · next he =>
+    simp only [he]
+    split at h
+    · next hm => simp at h; subst h; simp [hm]
+    · simp at h
+  · next args he =>
+    simp only [he]
+    split at h
+    · next hm =>
+      split at h
+      · next hf =>
+        simp at h; subst h
+        simp [selectErrorKwargs, hm, hf]
+      · simp at h
+    · simp at h
+  · next t he =>
+    simp only [he]
+    split at h
+    · next hm => simp at h; subst h; simp [hm]
+    · simp at h
+  · next e he => simp only [he]; simp at h; subst h; rfl
+  · simp at h
+
+/-! ## sync callables -/
+
+/-- **No body without a satisfied group** (all oracles, all checkers). -/
+theorem C01_sync_body_only_if_pre_holds (ck : Checker) (o : Oracle) (call : Call)
+    (hb : bodyEntered (checkedSync ck o call).trace) :
+    dnfHolds false o (resolved ck call) ck.pre := by
+  rw [checkedSync_eq] at hb
+  exact checkedG_body_dnf (syncHooks_ok o) ck call hb
+
+/-- **No snapshot is captured unless the precondition holds.** -/
+theorem C01_sync_capture_only_if_pre_holds (ck : Checker) (o : Oracle) (call : Call)
+    (hb : captured (checkedSync ck o call).trace) :
+    dnfHolds false o (resolved ck call) ck.pre := by
+  rw [checkedSync_eq] at hb
+  exact checkedG_capture_dnf (syncHooks_ok o) ck call hb
+
+/-- **If the effective precondition holds the body is entered**, for every truth
+assignment (conditions answer plain truth values), reserved names free, captures succeeding. -/
+theorem C01_sync_body_if_pre_holds (ck : Checker) (o : Oracle) (call : Call)
+    (hvalid : assertResolvedKwargsValid (!ck.posts.isEmpty) (resolved ck call) = none)
+    (htot : ∀ g ∈ ck.pre, totalOn false o (resolved ck call) g)
+    (hcap : ∃ old, (captureOldSync o (resolved ck call) [] ck.snaps).out = .ok old)
+    (hdnf : dnfHolds false o (resolved ck call) ck.pre) :
+    bodyEntered (checkedSync ck o call).trace := by
+  rw [checkedSync_eq]
+  exact checkedG_enters (syncHooks o) (condTruthy false o) (condFalsy false o) (syncHooks_ok o)
+    (fun kw c h => evalPreSync_true_of_falsy o kw c h) ck call hvalid htot hdnf hcap
+
+/-- **Otherwise the violated contract's error is raised**: the error of the first
+falsy condition of the last group tried; the body is not entered and nothing is captured. -/
+theorem C01_sync_violated (ck : Checker) (o : Oracle) (call : Call)
+    (hvalid : assertResolvedKwargsValid (!ck.posts.isEmpty) (resolved ck call) = none)
+    (htot : ∀ g ∈ ck.pre, totalOn false o (resolved ck call) g)
+    (hno : ¬ dnfHolds false o (resolved ck call) ck.pre) :
+    ∃ gl c, ck.pre.getLast? = some gl ∧ firstFalsy false o (resolved ck call) gl = some c ∧
+      (∀ err, errorOf o (resolved ck call) c = some err → (checkedSync ck o call).out = .error err) ∧
+      ¬ bodyEntered (checkedSync ck o call).trace ∧ ¬ captured (checkedSync ck o call).trace := by
+  have hne : ck.pre ≠ [] := fun h => hno (Or.inl h)
+  have hno' : ∀ g ∈ ck.pre, ¬ ∀ c ∈ g, condTruthy false o (resolved ck call) c = true :=
+    fun g hg hall => hno (Or.inr ⟨g, hg, hall⟩)
+  obtain ⟨gl, hgl⟩ : ∃ gl, ck.pre.getLast? = some gl := by
+    cases h : ck.pre.getLast? with
+    | none => exact absurd (List.getLast?_eq_none_iff.mp h) hne
+    | some gl => exact ⟨gl, rfl⟩
+  have hglm : gl ∈ ck.pre := List.mem_of_getLast? hgl
+  obtain ⟨c, hc⟩ : ∃ c, firstFalsy false o (resolved ck call) gl = some c := by
+    unfold firstFalsy
+    cases h : gl.find? (fun c => !condTruthy false o (resolved ck call) c) with
+    | some c => exact ⟨c, rfl⟩
+    | none =>
+      exfalso
+      apply hno' gl hglm
+      intro c hc
+      have := List.find?_eq_none.mp h c hc
+      simpa using this
+  refine ⟨gl, c, hgl, hc, ?_, ?_, ?_⟩
+  · intro err herr
+    rw [checkedSync_eq]
+    exact checkedG_violated (syncHooks o) (condTruthy false o) (condFalsy false o) (syncHooks_ok o)
+      (fun kw c h => evalPreSync_true_of_falsy o kw c h) ck call hvalid htot hno' gl hgl c hc err
+      (createViolationError_errorOf o _ c err herr)
+  · exact fun hb => hno (C01_sync_body_only_if_pre_holds ck o call hb)
+  · exact fun hb => hno (C01_sync_capture_only_if_pre_holds ck o call hb)
+
+/-! ## async callables -/
+
+theorem C01_async_body_only_if_pre_holds (ck : Checker) (o : Oracle) (call : Call)
+    (hb : bodyEntered (checkedAsync ck o call).trace) :
+    dnfHolds true o (resolved ck call) ck.pre := by
+  rw [checkedAsync_eq] at hb
+  exact checkedG_body_dnf (asyncHooks_ok o) ck call hb
+
+theorem C01_async_capture_only_if_pre_holds (ck : Checker) (o : Oracle) (call : Call)
+    (hb : captured (checkedAsync ck o call).trace) :
+    dnfHolds true o (resolved ck call) ck.pre := by
+  rw [checkedAsync_eq] at hb
+  exact checkedG_capture_dnf (asyncHooks_ok o) ck call hb
+
+theorem C01_async_body_if_pre_holds (ck : Checker) (o : Oracle) (call : Call)
+    (hvalid : assertResolvedKwargsValid (!ck.posts.isEmpty) (resolved ck call) = none)
+    (htot : ∀ g ∈ ck.pre, totalOn true o (resolved ck call) g)
+    (hcap : ∃ old, (captureOldAsync o (resolved ck call) [] ck.snaps).out = .ok old)
+    (hdnf : dnfHolds true o (resolved ck call) ck.pre) :
+    bodyEntered (checkedAsync ck o call).trace := by
+  rw [checkedAsync_eq]
+  exact checkedG_enters (asyncHooks o) (condTruthy true o) (condFalsy true o) (asyncHooks_ok o)
+    (fun kw c h => evalCondAsync_true_of_falsy o kw c h) ck call hvalid htot hdnf hcap
+
+theorem C01_async_violated (ck : Checker) (o : Oracle) (call : Call)
+    (hvalid : assertResolvedKwargsValid (!ck.posts.isEmpty) (resolved ck call) = none)
+    (htot : ∀ g ∈ ck.pre, totalOn true o (resolved ck call) g)
+    (hno : ¬ dnfHolds true o (resolved ck call) ck.pre) :
+    ∃ gl c, ck.pre.getLast? = some gl ∧ firstFalsy true o (resolved ck call) gl = some c ∧
+      (∀ err, errorOf o (resolved ck call) c = some err → (checkedAsync ck o call).out = .error err) ∧
+      ¬ bodyEntered (checkedAsync ck o call).trace ∧ ¬ captured (checkedAsync ck o call).trace := by
+  have hne : ck.pre ≠ [] := fun h => hno (Or.inl h)
+  have hno' : ∀ g ∈ ck.pre, ¬ ∀ c ∈ g, condTruthy true o (resolved ck call) c = true :=
+    fun g hg hall => hno (Or.inr ⟨g, hg, hall⟩)
+  obtain ⟨gl, hgl⟩ : ∃ gl, ck.pre.getLast? = some gl := by
+    cases h : ck.pre.getLast? with
+    | none => exact absurd (List.getLast?_eq_none_iff.mp h) hne
+    | some gl => exact ⟨gl, rfl⟩
+  have hglm : gl ∈ ck.pre := List.mem_of_getLast? hgl
+  obtain ⟨c, hc⟩ : ∃ c, firstFalsy true o (resolved ck call) gl = some c := by
+    unfold firstFalsy
+    cases h : gl.find? (fun c => !condTruthy true o (resolved ck call) c) with
+    | some c => exact ⟨c, rfl⟩
+    | none =>
+      exfalso
+      apply hno' gl hglm
+      intro c hc
+      have := List.find?_eq_none.mp h c hc
+      simpa using this
+  refine ⟨gl, c, hgl, hc, ?_, ?_, ?_⟩
+  · intro err herr
+    rw [checkedAsync_eq]
+    exact checkedG_violated (asyncHooks o) (condTruthy true o) (condFalsy true o) (asyncHooks_ok o)
+      (fun kw c h => evalCondAsync_true_of_falsy o kw c h) ck call hvalid htot hno' gl hgl c hc err
+      (createViolationError_errorOf o _ c err herr)
+  · exact fun hb => hno (C01_async_body_only_if_pre_holds ck o call hb)
+  · exact fun hb => hno (C01_async_capture_only_if_pre_holds ck o call hb)
+
+/-! ## the wrapper around the checked path, and the chain reading of "effective precondition" -/
+
+/-- A call that is not an own re-entry and uses no reserved keyword runs the checked path. -/
+theorem C01_wrapper_runs_checked_path (ck : Checker) (o : Oracle) (s : IdSet) (call : Call)
+    (hk : assertNoInvalidKwargs call.kwargs = none) (hs : s.contains ck.fid = false) :
+    (callSync ck o s call).1 = checkedSync ck o call ∧ (callAsync ck o s call).1 = checkedAsync ck o call := by
+  have hs' : ck.fid ∉ s := by simpa using hs
+  simp [callSync, callAsync, hk, hs']
+
+/-- A call with a reserved keyword never reaches user code. -/
+theorem C01_reserved_keyword_rejected (ck : Checker) (o : Oracle) (s : IdSet) (call : Call) (e : Raised)
+    (hk : assertNoInvalidKwargs call.kwargs = some e) :
+    (callSync ck o s call).1.trace = [] ∧ (callSync ck o s call).1.out = .error e ∧
+    (callAsync ck o s call).1.trace = [] ∧ (callAsync ck o s call).1.out = .error e := by
+  simp [callSync, callAsync, hk]
+
+/-- Along an override chain the effective precondition is: *some class that declares
+preconditions has all of its own conditions truthy* (own conjoined, inherited groups as
+alternatives); a chain that declares none accepts every call. -/
+theorem C01_chain_effective_precondition (isAsync : Bool) (o : Oracle) (kw : Kwargs) (levels : List Level) :
+    dnfHolds isAsync o kw (chainPre levels) ↔
+      (∀ l ∈ levels, l.pre = []) ∨
+      ∃ l ∈ levels, l.pre ≠ [] ∧ ∀ c ∈ l.pre, condTruthy isAsync o kw c = true := by
+  induction levels with
+  | nil => simp [chainPre, dnfHolds]
+  | cons l ls ih =>
+    unfold dnfHolds at ih ⊢
+    by_cases hl : l.pre = []
+    · simp only [chainPre, hl, List.isEmpty_nil, if_true, List.nil_append]
+      rw [ih]
+      constructor
+      · rintro (h | ⟨l', hl', hne, hall⟩)
+        · left; intro x hx; rcases List.mem_cons.mp hx with rfl | hx
+          · exact hl
+          · exact h x hx
+        · right; exact ⟨l', List.mem_cons_of_mem _ hl', hne, hall⟩
+      · rintro (h | ⟨l', hl', hne, hall⟩)
+        · left; exact fun x hx => h x (List.mem_cons_of_mem _ hx)
+        · right
+          rcases List.mem_cons.mp hl' with rfl | hl'
+          · exact absurd hl hne
+          · exact ⟨l', hl', hne, hall⟩
+    · have hie : l.pre.isEmpty = false := by
+        cases h : l.pre with
+        | nil => exact absurd h hl
+        | cons a b => rfl
+      simp only [chainPre, hie, Bool.false_eq_true, if_false, List.cons_append, List.nil_append]
+      constructor
+      · rintro (h | ⟨g, hg, hall⟩)
+        · cases h
+        · right
+          rcases List.mem_cons.mp hg with rfl | hg
+          · exact ⟨l, List.mem_cons_self, hl, hall⟩
+          · rcases ih.mp (Or.inr ⟨g, hg, hall⟩) with h | ⟨l', hl', hne, hall'⟩
+            · exfalso
+              have : ∀ ls : List Level, (∀ l ∈ ls, l.pre = []) → chainPre ls = [] := by
+                intro ls h
+                induction ls with
+                | nil => rfl
+                | cons a as iha =>
+                  simp [chainPre, h a List.mem_cons_self,
+                    iha (fun x hx => h x (List.mem_cons_of_mem _ hx))]
+              rw [this ls h] at hg; cases hg
+            · exact ⟨l', List.mem_cons_of_mem _ hl', hne, hall'⟩
+      · rintro (h | ⟨l', hl', hne, hall⟩)
+        · exact absurd (h l List.mem_cons_self) hl
+        · right
+          rcases List.mem_cons.mp hl' with rfl | hl'
+          · exact ⟨_, List.mem_cons_self, hall⟩
+          · rcases ih.mpr (Or.inr ⟨l', hl', hne, hall⟩) with h | ⟨g, hg, hg2⟩
+            · have : ∀ ls : List Level, chainPre ls = [] → ∀ l ∈ ls, l.pre = [] := by
+                intro ls
+                induction ls with
+                | nil => intro _ l hl; cases hl
+                | cons a as iha =>
+                  intro h x hx
+                  by_cases ha : a.pre = []
+                  · simp [chainPre, ha] at h
+                    rcases List.mem_cons.mp hx with rfl | hx
+                    · exact ha
+                    · exact iha h x hx
+                  · have : a.pre.isEmpty = false := by
+                      cases h' : a.pre with
+                      | nil => exact absurd h' ha
+                      | cons _ _ => rfl
+                    simp [chainPre, this] at h
+              exact absurd (this ls h l' hl') hne
+            · exact ⟨g, List.mem_cons_of_mem _ hg, hg2⟩
+
+/-! ## non-vacuity: concrete cases meeting the hypotheses -/
+
+private def exC (i : Nat) : Contract := { id := i, args := ["x"], mandatory := ["x"], err := .cls true true }
+private def exCk : Checker := { fid := 1, pre := [[exC 1, exC 2], [exC 3]], paramNames := ["x"] }
+private def exO (t1 t2 t3 : Truth) : Oracle :=
+  { cond := fun i => if i == 1 then .val 101 t1 else if i == 2 then .val 102 t2 else .val 103 t3,
+    capture := fun _ => .val 0 .truthy, body := .ret 7, fac := fun _ => .nonExc, msg := fun _ => .ok }
+
+/-- a two-group checker, second group holds: the body is entered (hypotheses of
+`C01_sync_body_if_pre_holds` are met and its conclusion is observed by evaluation) -/
+example : (checkedSync exCk (exO .truthy .falsy .truthy) { args := [10] }).trace.any Event.isBody = true := by
+  decide
+
+/-- no group holds: error of the first falsy condition of the last group, no body -/
+example : (match (checkedSync exCk (exO .truthy .falsy .falsy) { args := [10] }).out with
+            | .error (.viol 3 true) => true | _ => false) = true
+    ∧ (checkedSync exCk (exO .truthy .falsy .falsy) { args := [10] }).trace.any Event.isBody = false := by
+  decide
 
 end Icontract
